@@ -130,6 +130,8 @@ def catalogue():
     C["catch_none"] = (wf("m", [step("s1", [irq("a1"), irq("a2")]), step("s2", [irq("a3")])]), {})
     C["catch_all_and_code"] = (wf("m", [step("s1", [irq("a1", catches=[catch([step("cs1", [irq("ca1")])]), catch([step("cs2", [irq("ca2")])], on="e1")])]),
                                         step("s2", [irq("a3")])]), {})
+    C["env_flow"] = (wf("m", [step("s1", [code("c1", "$set_process_var(\"pv\", 7); $env.e1 = 5; return {y: 3};"), irq("a1")]), step("s2", [irq("a2")])],
+                        env={"e0": 1}, outputs={"y": None}), {})
     C["tail_if"] = (wf("m", [step("s1", [irq("a1")]), step("s2", [irq("a2")], **{"if": "c1"})]), {"c1": "$bool"})
     C["branch_tail_if"] = (wf("m", [step("s1", branches=[
         branch("b1", [step("s11", [irq("a1")]), step("s12", [irq("a2")], **{"if": "c2"})], **{"if": "c1"}),
